@@ -47,7 +47,7 @@ def cases(tier):
     for dim in (1, 2, 3):
         n = BOUNDS[tier][dim]
         for s in itertools.product(range(1, n + 1), repeat=dim):
-            for vs in ("unit", "scalar", "aniso"):
+            for vs in ("unit", "scalar", "aniso", "array"):
                 out.append({"shape": list(s), "vs": vs, "tier": tier})
     out.sort(key=lambda c: (int(np.prod(c["shape"])), len(c["shape"]), c["shape"], c["vs"]))
     return out
@@ -62,12 +62,14 @@ def run_case(case, r):
     cls = shape_class(shape)
     # "unit": voxel_size=1.0 (float); "scalar": voxel_size=0.5 (one float for all axes);
     # "aniso": a list with one dyadic size per axis
-    vs = {"unit": np.ones(dim), "scalar": np.full(dim, 0.5), "aniso": np.array(VS[dim])}[case["vs"]]
-    vs_arg = {"unit": 1.0, "scalar": 0.5, "aniso": list(VS[dim])}[case["vs"]]
+    # "array": the voxel sizes are handed over as a float64 ndarray which the caller goes on using
+    # (scales it in place right after the grid was built, as in a loop over refinement levels)
+    vs = {"unit": np.ones(dim), "scalar": np.full(dim, 0.5), "aniso": np.array(VS[dim]), "array": np.array(VS[dim])}[case["vs"]]
+    vs_arg = {"unit": 1.0, "scalar": 0.5, "aniso": list(VS[dim]), "array": np.array(VS[dim], dtype=float)}[case["vs"]]
     # start from a non-initial process state: operators of a grid of the SAME shape but the
     # OTHER voxel sizes (and of the transposed shape) have been built and used before, so any
     # state kept between grids (module-level caches keyed too coarsely) shows up
-    for oshape, ovs in ((shape, list(VS[dim]) if case["vs"] != "aniso" else 0.5), (shape[::-1], 1.0 if case["vs"] != "unit" else list(VS[dim]))):
+    for oshape, ovs in ((shape, list(VS[dim]) if case["vs"] not in ("aniso", "array") else 0.5), (shape[::-1], 1.0 if case["vs"] != "unit" else list(VS[dim]))):
         og = darsia.Grid(oshape, ovs)
         darsia.FVDivergence(og), darsia.FVMass(og, "cells"), darsia.FVMass(og, "faces")
         if og.num_faces:
@@ -76,6 +78,8 @@ def run_case(case, r):
             if dim >= 2:
                 darsia.FVFullFaceReconstruction(og)(np.ones(og.num_faces))
     g = darsia.Grid(shape, vs_arg)
+    if case["vs"] == "array":
+        vs_arg *= 2.0  # the caller's array, not the grid's
 
     def cell(clause):
         return f"C06/{clause}/dim={dim}/{cls}/vs={case['vs']}"
